@@ -61,7 +61,22 @@ C07b == { Scn("C07b", F(<<L("a", "T2", "")>>, <<>>), ins, cs) :
             ins \in UNION {PermSeqs(S) : S \in {x \in SUBSET C07Inputs : L("a", "T1", "") \in x /\ Cardinality(x) <= 3}},
             cs \in UNION {PermSeqs(S) : S \in {{F(<<L("a", "T1", "")>>, <<L("", "T2", "")>>), F(<<L("", "T1", "")>>, <<L("", "T2", "")>>)},
                                                 {F(<<L("a", "T1", "")>>, <<L("", "T2", "")>>), F(<<L("", "T1", "")>>, <<L("", "T2", "")>>), C07Rev}}} }
-C07Family == C07a \cup C07b
+\* two named parameters converted from the same supplied type: each conversion must take the value
+\* that carries the parameter's own name (distinct target types, so each parameter has one converter)
+C07c == { Scn("C07c", F(<<L("a", "T2", ""), L("b", "T3", "")>>, <<>>), ins, cs) :
+            ins \in UNION {PermSeqs(S) : S \in {{L("a", "T1", ""), L("b", "T1", "")}, {L("a", "T1", ""), L("b", "T1", ""), L("c", "T1", "")}}},
+            cs \in UNION {PermSeqs(S) : S \in {{F(<<L("", "T1", "")>>, <<L("", "T2", "")>>), F(<<L("", "T1", "")>>, <<L("", "T3", "")>>)},
+                                                {F(<<L("a", "T1", "")>>, <<L("", "T2", "")>>), F(<<L("", "T1", "")>>, <<L("", "T3", "")>>)},
+                                                {F(<<L("", "T1", "")>>, <<L("a", "T2", "")>>), F(<<L("", "T1", "")>>, <<L("", "T3", "")>>)}}} }
+\* two named parameters of the same type produced by ONE type-only converter (executed once per parameter)
+C07d == { Scn("C07c", F(<<L("a", "T2", ""), L("b", "T2", "")>>, <<>>), ins, <<F(<<L("", "T1", "")>>, <<L("", "T2", "")>>)>>) :
+            ins \in UNION {PermSeqs(S) : S \in {{L("a", "T1", ""), L("b", "T1", "")}, {L("a", "T1", ""), L("b", "T1", ""), L("c", "T1", "")}}} }
+\* the same-named value carries a subtype
+C07e == { Scn("C07a", F(<<L("a", "T2", "")>>, <<>>), ins, <<F(<<L("", "T1", "")>>, <<o>>)>>) :
+            ins \in UNION {PermSeqs(S) : S \in {{L("a", "T1", "s"), L("b", "T1", "")}, {L("a", "T1", "s"), L("b", "T1", "t")},
+                                                 {L("a", "T1", "s"), L("b", "T1", ""), L("c", "T1", "s")}}},
+            o \in C07ConvOut }
+C07Family == C07a \cup C07b \cup C07c \cup C07d \cup C07e
 
 -----------------------------------------------------------------------------
 \* single-input converter digraphs over three types: every subset of the six type-only converters
